@@ -157,6 +157,27 @@ def run_tlc(module, cfg_text, out_path, workers=1, timeout=900, xmx="4g", extra=
     return res
 
 
+def tlaps_check(module, timeout=900):
+    """Checks spec/proofs/<module>.tla with the TLA+ proof system; returns obligation counts."""
+    d = os.path.join(SPEC, "proofs")
+    t = time.time()
+    try:
+        p = subprocess.run(["tlapm", "--threads", "4", "--cleanfp", module + ".tla"], cwd=d, stdout=subprocess.PIPE, stderr=subprocess.STDOUT,
+                           text=True, timeout=timeout)
+    except subprocess.TimeoutExpired:
+        raise ToolError("tlapm timed out on " + module)
+    shutil.rmtree(os.path.join(d, ".tlacache"), ignore_errors=True)
+    m = re.search(r"All (\d+) obligations proved", p.stdout)
+    if m:
+        n = int(m.group(1))
+        log("[tlapm] %s: %d obligations proved, %.1fs" % (module, n, time.time() - t))
+        return {"module": module, "obligations": n, "discharged": n, "wall_s": round(time.time() - t, 1)}
+    m = re.search(r"(\d+)/(\d+) obligations failed", p.stdout)
+    if m:
+        raise ToolError("tlapm: %s of %s obligations of %s failed" % (m.group(1), m.group(2), module))
+    raise ToolError("tlapm failed on %s: %s" % (module, p.stdout[-500:]))
+
+
 def ensure_layout():
     """The TLC-evaluated layout (independent of /repo): cached by the hash of the spec modules."""
     files = ["SlpVersion.tla", "SlpLayout.tla", "mc/MC_Layout.tla"]
